@@ -11,6 +11,11 @@ pixels with alpha <= cut - half - eps MUST be 1, pixels with alpha >= cut + half
 eps = 1e-5 (float32) / 1e-12 (float64) of the angular range; pixels inside the eps-band only have to lie in [0, 1].
 The inclusive boundary of the hard aperture (alpha == cutoff -> 1) is tested on `hard_aperture` with bit-identical floats.
 
+Histories: ONE live Aperture / TemporalEnvelope / SpatialEnvelope / CTF is evaluated, exactly one of energy / gpts / sampling /
+extent / cutoff / focal spread / angular spread / a coefficient is changed (public attributes, or implicit matching to waves of
+another energy or grid) and it is evaluated again; every evaluation must satisfy the bounds for the *current* parameters
+(reference geometry rebuilt from the current energy and grid) and equal the kernel of a freshly built object.
+
 Every distribution-valued parameter is also exercised with *weighted* distributions (Gaussian quadrature weights, user
 weights): the member values are recomputed here; the bounds hold per member, i.e. weights must not scale an aperture or an
 envelope (an envelope member is exactly 1 at zero angle whatever its weight).
@@ -29,12 +34,13 @@ RULE = ("energies 20 keV-1 MeV; grids 1-48 points per axis (odd/even/size-1), an
         "weighted with 'intensity' or 'amplitude' normalisation (ensemble_mean on/off) or user-weighted with weights in (0, 1]; "
         "soft and hard edges; focal spread 0-200 Angstrom (also negative, also distributions), angular spread 0-5 mrad (also exactly 0 "
         "and distributions); aberration sets of 0-25 polar coefficients scaled to 0.01-60 rad per term, one of them possibly a "
-        "distribution; flip_phase on/off; float64 and float32; non-trivial = aperture edge inside the grid with pixels strictly "
+        "distribution; flip_phase on/off; float64 and float32; histories of 2-5 single-parameter changes on one live object "
+        "(explicit setters or matching to waves of another energy / grid); non-trivial = aperture edge inside the grid with pixels strictly "
         "inside the 'must be 1' and 'must be 0' regions, or an envelope that drops below 0.99; distinct = distinct case signature")
 CLAUSES = ["aperture-in-unit-interval", "hard-binary", "hard-one-up-to-cutoff", "hard-zero-beyond", "hard-boundary-inclusive",
            "soft-one-below-half-pixel", "soft-zero-above-half-pixel", "ensemble-evaluates", "temporal-in-unit-interval",
            "temporal-one-at-zero", "spatial-in-unit-interval", "spatial-one-at-zero", "ctf-le-aperture", "ctf-zero-where-closed",
-           "pipeline-le-aperture", "infinite-cutoff-is-open"]
+           "pipeline-le-aperture", "infinite-cutoff-is-open", "history-state", "history-equals-fresh"]
 QUICK = dict(n=170, time=40)
 THOROUGH = dict(n=12000, time=360, shards=16)
 ASSUMPTIONS = ["Wiener-filtered CTFs (wiener_snr != 0) are outside the quantifier of the property and are not generated",
@@ -51,7 +57,41 @@ def _dist_or_scalar(rng, draw, p_dist, nonneg=False):
     return draw()
 
 
+HIST_OPS = {"aperture": ("cutoff", "cutoff"), "temporal": ("focal", "focal"), "spatial": ("angular", "coeff"),
+            "ctf": ("cutoff", "focal", "angular", "coeff")}
+
+
+def _gen_history(rng):
+    """ONE live object: evaluate, change exactly one parameter, evaluate again (see c21.rand_history)."""
+    kind = str(rng.choice(["aperture", "aperture", "temporal", "spatial", "ctf", "ctf"]))
+    hist = A.rand_history(rng, extra_ops=HIST_OPS[kind])
+    for st in hist["steps"]:
+        if "via" in st:
+            st["via"] = "kernel"        # bounds are exact statements: no DFT round trip in between
+    lam_h = max(A.wl_ref(e) for e in A.HIST_ENERGIES)
+    lam_l = min(A.wl_ref(e) for e in A.HIST_ENERGIES)
+    nyq = lam_l / (2 * max(hist["sampling"])) * 1e3            # mrad, inside the grid for every energy of the history
+    symbols = [str(x) for x in rng.choice(A.SYMBOLS, size=int(rng.integers(0, 7)), replace=False)]
+    coeffs = A._rand_coeffs(rng, symbols, A.history_amax(hist), lam_h)
+    for st in hist["steps"]:
+        if st["op"] == "cutoff":
+            st["value"] = float(rng.uniform(0.1, 1.5) * nyq)
+        elif st["op"] == "focal":
+            st["value"] = float(rng.choice([0.0, rng.uniform(1, 200), -rng.uniform(1, 100)]))
+        elif st["op"] == "angular":
+            st["value"] = float(rng.choice([0.0, rng.uniform(0.05, 5)]))
+        elif st["op"] == "coeff":
+            sym = str(rng.choice(A.SYMBOLS))
+            st.update(symbol=sym, value=A._rand_coeffs(rng, [sym], A.history_amax(hist), lam_h)[sym])
+    return {"kind": "history", "obj": kind, "hist": hist, "precision": "float64" if rng.random() < 0.5 else "float32",
+            "soft": bool(rng.random() < 0.5), "cutoff": float(rng.uniform(0.2, 1.2) * nyq),
+            "focal_spread": float(rng.uniform(0, 100)), "angular_spread": float(rng.uniform(0, 3)), "coeffs": coeffs,
+            "energy": hist["energy"], "gpts": hist["gpts"], "sampling": hist["sampling"]}
+
+
 def gen(rng, tier):
+    if rng.random() < 0.22:
+        return _gen_history(rng)
     en = float(rng.choice([20e3, 60e3, 80e3, 100e3, 200e3, 300e3, 1e6])) if rng.random() < 0.6 else float(
         10 ** rng.uniform(math.log10(2e4), 6))
     lam = A.wl_ref(en)
@@ -149,6 +189,25 @@ def fixed_cases(tier):
              focal_spread={"values": [10.0, 80.0, 150.0], "weights": [0.5, 1.0, 0.25]},
              angular_spread={"values": [0.0, 2.0], "weights": [0.9, 0.1]}, coeff_dist=["C12", {"values": [5.0, 50.0], "weights": [0.6, 0.4]}])
     out.append(c)
+    # histories on one object: energy re-set on the same grid / matched to waves of another energy
+    w = {"gpts": [24, 17], "sampling": [0.1, 0.23]}
+    k = 0
+    for obj in ("aperture", "temporal", "spatial", "ctf"):
+        for mode in ("explicit", "match"):
+            k += 1
+            steps = ([{"op": "energy", "value": 300e3}, {"op": "energy", "value": 60e3},
+                      {"op": {"aperture": "cutoff", "temporal": "focal", "spatial": "angular", "ctf": "cutoff"}[obj],
+                       "value": {"aperture": 5.0, "temporal": 150.0, "spatial": 3.0, "ctf": 5.0}[obj]},
+                      {"op": "sampling", "value": [0.12, 0.2]}, {"op": "energy", "value": 200e3}] if mode == "explicit" else
+                     [dict(w, op="energy", energy=100e3, via="kernel"), dict(w, op="energy", energy=300e3, via="kernel"),
+                      dict(w, op="energy", energy=60e3, via="kernel"),
+                      {"op": "gpts", "energy": 60e3, "gpts": [20, 17], "sampling": [0.1, 0.23], "via": "kernel"}])
+            out.append({"kind": "history", "obj": obj, "precision": "float64" if k % 2 else "float32", "soft": bool(k % 3),
+                        "cutoff": 9.0, "focal_spread": 40.0, "angular_spread": 1.5,
+                        "coeffs": {"C10": -300.0, "C30": 1.0e6, "C12": 25.0, "phi12": 0.6},
+                        "energy": 100e3, "gpts": w["gpts"], "sampling": w["sampling"],
+                        "hist": dict(w, mode=mode, energy=100e3, form=["gpts-sampling", "gpts-extent", "extent-sampling"][k % 3],
+                                     steps=steps)})
     return out
 
 
@@ -244,10 +303,98 @@ def setup(ctx):
 
 
 # --------------------------------------------------------------------------- workload
+def _history(ctx, case):
+    """One live Aperture / envelope / CTF through a history of single-parameter changes; after every change the kernel must
+    satisfy the bounds for the *current* parameters and equal the kernel of a freshly built object."""
+    from abtem import transfer
+    hist = case["hist"]
+    f32 = case["precision"] == "float32"
+    kind, soft = case["obj"], case["soft"]
+    par = {"cutoff": float(case["cutoff"]), "focal": float(case["focal_spread"]), "angular": float(case["angular_spread"])}
+    coeffs = {k: float(v) for k, v in case["coeffs"].items()}
+    energy = hist["energy"]
+
+    def build(**grid):
+        if kind == "aperture":
+            return transfer.Aperture(par["cutoff"], soft=soft, **grid)
+        if kind == "temporal":
+            return transfer.TemporalEnvelope(par["focal"], **grid)
+        if kind == "spatial":
+            return transfer.SpatialEnvelope(par["angular"], aberration_coefficients=dict(coeffs), **grid)
+        return transfer.CTF(semiangle_cutoff=par["cutoff"], soft=soft, focal_spread=par["focal"], angular_spread=par["angular"],
+                            aberration_coefficients=dict(coeffs), **grid)
+
+    if hist["mode"] == "explicit":
+        obj = build(energy=energy, **A.history_grid_kwargs(hist))
+        steps = [None] + hist["steps"]
+    else:
+        obj = build()
+        steps = hist["steps"]
+    attr = {"cutoff": "semiangle_cutoff", "focal": "focal_spread", "angular": "angular_spread"}
+    nontrivial = False
+    for i, step in enumerate(steps):
+        got = None
+        if step is not None:
+            op = step["op"]
+            if op in attr:
+                setattr(obj, attr[op], step["value"])
+                par[op] = float(step["value"])
+            elif op == "coeff":
+                setattr(obj, step["symbol"], step["value"])
+                coeffs[step["symbol"]] = float(step["value"])
+            if "via" in step:
+                energy = step["energy"]
+                got = _np(A.history_step(obj, step, f32))
+            else:
+                if op == "energy":
+                    energy = step["value"]
+                A.history_step(obj, step, f32)
+        if got is None:
+            got = _np(obj._evaluate_kernel())
+        ctx.expect(obj.energy == energy, "history-state", step=i, got=obj.energy, want=energy)
+        if step is not None and "via" in step:
+            g, smp = tuple(step["gpts"]), tuple(step["sampling"])
+        else:
+            g, smp = tuple(int(x) for x in obj.gpts), tuple(float(x) for x in obj.sampling)
+        now = {"gpts": list(g), "sampling": list(smp), "energy": energy, "precision": case["precision"]}
+        geo = Geometry(now)
+        where = "history step %d (%s)" % (i, "start" if step is None else step["op"])
+        if not ctx.expect(got.shape == g, "history-equals-fresh", what="shape", step=i, got=list(got.shape), want=list(g)):
+            return
+        grid = dict(energy=energy, gpts=g, sampling=smp)
+        fresh = _np(build(**grid)._evaluate_kernel())
+        ctx.close(got, fresh, "history-equals-fresh", rtol=0, atol=1e-12 if not f32 else 2e-6, scale=1.0, where=where, obj=kind)
+        if kind == "aperture":
+            nontrivial |= bool(_aperture_bounds(ctx, got, geo, [par["cutoff"]], soft, where))
+        elif kind in ("temporal", "spatial"):
+            _unit_interval(ctx, got, kind + "-in-unit-interval", where=where)
+            ctx.expect(got[0, 0] == 1.0, kind + "-one-at-zero", where=where, got=float(got[0, 0]))
+            nontrivial |= float(got.min()) < 0.99
+        else:
+            tol = 1e-12 if not f32 else 2e-6
+            mod = np.abs(got.astype(np.complex128))
+            apb = _np(transfer.Aperture(par["cutoff"], soft=soft, **grid)._evaluate_kernel()).astype(np.float64)
+            ctx.expect(float((mod - apb * (1.0 + tol)).max()) <= tol * 1e-3, "ctf-le-aperture", where=where,
+                       excess=float((mod - apb).max()))
+            one, zero = geo.regions(par["cutoff"], soft)
+            ctx.expect(np.all(mod[zero] == 0.0), "ctf-zero-where-closed", where=where, cut=par["cutoff"])
+            # where the reference geometry says the aperture is fully open, the modulus is the product of the envelopes (<= 1)
+            # and, at zero angle, exactly 1
+            ctx.expect(abs(mod[0, 0] - 1.0) <= tol, "ctf-le-aperture", what="DC", where=where, got=float(mod[0, 0]))
+            nontrivial |= bool(one.sum() > 1 and zero.sum() > 0)
+        ctx.monitor("history-evaluations")
+    ctx.nontrivial(nontrivial)
+
+
 def check(ctx, case):
     import abtem
     from abtem import transfer
     from vf import gen as G
+
+    if case.get("kind") == "history":
+        with G.precision(case["precision"]):
+            _history(ctx, case)
+        return
 
     geo = Geometry(case)
     lam = geo.lam
